@@ -97,6 +97,19 @@ def _prove_len (repo, f, g, node, buf, need_expr, limit=250):
   if worst is None: return 'proved', "every path establishes the needed length"
   return 'violated', "on the path through lines %s the read needs %d byte(s) of `%s` but the guards on that path only establish %d" % (worst[2][-8:], worst[0], buf, worst[1])
 
+def _is_dict_table (repo, f, e):
+  """is expression `e` (cls.X / self.X / Class.X / module-level X) bound to a dict display, a dict comprehension or dict(...)?"""
+  v = None
+  if isinstance(e, ast.Attribute) and isinstance(e.value, ast.Name) and f.cls is not None:
+    k = f.cls if e.value.id in ('self', 'cls') else f.module.lookup(e.value.id)
+    if isinstance(k, Cls):
+      c_, v = k.find_assign(e.attr)
+  elif isinstance(e, ast.Name) and not q.reaching_assign(f.node, e.id) and e.id not in f.params:
+    r = f.module.lookup(e.id)
+    if isinstance(r, tuple) and r[0] == 'const': v = r[2]
+  if v is None: return False
+  return isinstance(v, (ast.Dict, ast.DictComp)) or (isinstance(v, ast.Call) and call_name(v) == 'dict')
+
 def _sites (repo, f):
   """raising sites local to function f (already filtered by length proofs, not by try): (sites, undecided, cfg)"""
   out = []; und = []
@@ -165,6 +178,11 @@ def _sites (repo, f):
             sx.unguarded = not looks
             und.append(sx); continue
           out.append(Site(f, n, 'struct', 'error', None, what + ": " + why))
+        elif isinstance(x, ast.Subscript) and isinstance(x.ctx, ast.Load) and not isinstance(x.slice, (ast.Slice, ast.Constant)) and _is_dict_table(repo, f, x.value):
+          # a lookup table (dict) indexed with a value that is not a constant: a key the table does not list raises KeyError
+          fs_ = q.fact_strs(g, n)
+          if any((' in %s' % norm(x.value)) in f_ and 'not in' not in f_ for f_ in fs_): continue
+          out.append(Site(f, n, 'key', 'KeyError', None, "table lookup `%s` with a key taken from the frame" % norm(x)[:50]))
         elif isinstance(x, ast.Subscript) and isinstance(x.ctx, ast.Load) and isinstance(x.value, ast.Name) and x.value.id in bufs and not isinstance(x.slice, ast.Slice):
           if isinstance(x.slice, ast.UnaryOp): continue
           verdict, why = _prove_len(repo, f, g, n, x.value.id, plus(x.slice, 1))
@@ -413,8 +431,8 @@ def run (ctx):
     key = (s.func.qual, s.what)
     if key in seen: continue
     seen.add(key)
-    rule = {'struct': 'R-DOM', 'index': 'R-DOM', 'width': 'R-AGREE', 'raise': 'R-CONTAIN', 'assert': 'R-CONTAIN', 'attr': 'R-DEF'}[s.kind]
-    clause = {'struct': 'D1', 'index': 'D1', 'width': 'D3', 'raise': 'D2', 'assert': 'D2', 'attr': 'D2'}[s.kind]
+    rule = {'struct': 'R-DOM', 'index': 'R-DOM', 'width': 'R-AGREE', 'raise': 'R-CONTAIN', 'assert': 'R-CONTAIN', 'attr': 'R-DEF', 'key': 'R-CONTAIN'}[s.kind]
+    clause = {'struct': 'D1', 'index': 'D1', 'width': 'D3', 'raise': 'D2', 'assert': 'D2', 'attr': 'D2', 'key': 'D2'}[s.kind]
     ctx.bad(rule, s.func, s.what[:100],
             "%s; nothing on the call chain %s catches %s: a frame that reaches this point makes ethernet.parse (and PacketIn.parsed in an event handler) raise" % (s.what, " -> ".join(x.split(':')[-1] for x in chain), s.exc),
             (s.func.module, s.node.ast if s.node is not None and s.node.ast is not None else s.func.node), clause, path=chain)
@@ -429,7 +447,7 @@ def run (ctx):
       if id(s) in escaped: continue
       n_contained += 1
       if n_contained <= 400:
-        ctx.ok({'struct': 'R-DOM', 'index': 'R-DOM', 'width': 'R-AGREE', 'raise': 'R-CONTAIN', 'assert': 'R-CONTAIN', 'attr': 'R-DEF'}[s.kind], s.func,
+        ctx.ok({'struct': 'R-DOM', 'index': 'R-DOM', 'width': 'R-AGREE', 'raise': 'R-CONTAIN', 'assert': 'R-CONTAIN', 'attr': 'R-DEF', 'key': 'R-CONTAIN'}[s.kind], s.func,
                s.what[:100], "contained by a try on every chain from ethernet.parse", (s.func.module, s.node.ast if s.node is not None and s.node.ast is not None else s.func.node), 'D1')
   ctx.stat('sites_contained', n_contained); ctx.stat('sites_escaping', len(seen))
   # guarded struct reads (proved by guards) are not sites; count them for the evidence
